@@ -109,6 +109,28 @@ def _run(task):
     return _bounded_task(task[1:])
 
 
+def load_baseline():
+    path = os.path.join(HERE, "baseline", "functions.json")
+    if not os.path.exists(path):
+        return {}
+    with open(path) as fh:
+        return json.load(fh).get("functions", {})
+
+
+def _changed_since_baseline(baseline, rep):
+    want = baseline.get(rep.get("function"))
+    return bool(want) and bool(rep.get("function_sha")) and want != rep["function_sha"]
+
+
+def _primary_property(rep):
+    """the property a contract was written for: the first it lists (its clauses may be stronger than what the other
+    properties that use the function need, so only this one is alarmed by a lost obligation)"""
+    from pyvc.spec import REGISTRY
+
+    con = REGISTRY.get(rep.get("function"))
+    return con.properties[0] if con is not None and con.properties else None
+
+
 def load_known():
     path = os.path.join(HERE, "known_findings.json")
     if not os.path.exists(path):
@@ -212,6 +234,7 @@ def main(argv=None):
     bounded_reports = sorted([r[2] for r in results if r[0] == "bounded"], key=lambda d: d["module"])
 
     known = load_known()
+    baseline = load_baseline()
     os.makedirs(os.path.join(OUT, "replay"), exist_ok=True)
     os.makedirs(os.path.join(OUT, "evidence"), exist_ok=True)
     violations = []
@@ -250,6 +273,19 @@ def main(argv=None):
             errors.append(f"{name}: {st} {rep.get('reason', '')}")
         elif st in ("UNDECIDED", "OUT-OF-SUBSET", "SPEC-INAPPLICABLE"):
             undecided.append(f"{st} {name}: {rep.get('reason', '') or [o['name'] for o in rep['obligations'] if o['status'] != 'discharged'][:4]}")
+            lost = [o for o in rep["obligations"] if o["status"] != "discharged"]
+            if st == "UNDECIDED" and lost and _changed_since_baseline(baseline, rep) and _primary_property(rep) == pid:
+                # The text of this function differs from the tree its contract was discharged against, the contract
+                # still applies to its shape, and obligations that were discharged there are not any more: reported
+                # as the violated obligations (the solver gives no input; the bounded stage may).
+                path = os.path.join(OUT, "replay", f"{pid}_obligations_{len(violations)}.json")
+                with open(path, "w") as fh:
+                    json.dump({"property": pid, "function": name, "function_text_changed": True,
+                               "failed_obligations": [{"name": o["name"], "solver": o.get("backend", ""), "solver_output": o.get("reason", "undecided"),
+                                                       "candidate_model": o.get("candidate_model", "")} for o in lost[:20]],
+                               "note": "discharged on the pinned tree, not discharged on this one; no failing input from the solver"}, fh, indent=1)
+                suffix = "" if concrete else " no-failing-input-found"
+                violations.append((path, f"{name}: {len(lost)} obligation(s) of the contract no longer hold, e.g. {lost[0]['name'].split('::')[-1]}", suffix))
         elif st == "REFUTED":
             for o in rep["obligations"]:
                 if o["status"] != "refuted":
